@@ -43,14 +43,14 @@ def _m_spec(t, p, P, amp=AMP):
     return amp * npshim.UCOS(Z * 2 * PI * z3.ToReal(t) + 2 * PI * z3.RealVal(p) / z3.RealVal(P))
 
 
-def _mk_gnim(P, zero_amp):
+def _mk_gnim(P, zero_amp, nproc=3):
     def mk(c):
         c.assume(N >= 3)
         for ax in npshim.pi_axioms() + canon_axioms(XV, N):
             c.assume(ax)
         X = vec_of(XV, N)
         c.ghost['calls'] = []
-        kw = dict(nphases=P, nprocesses=3, imf_opts={'stop_method': 'rilling'}, envelope_opts={'interp_method': 'pchip'}, extrema_opts={'pad_width': 3})
+        kw = dict(nphases=P, nprocesses=nproc, imf_opts={'stop_method': 'rilling'}, envelope_opts={'interp_method': 'pchip'}, extrema_opts={'pad_width': 3})
         amp = SReal(z3.RealVal(0)) if zero_amp else SReal(AMP)
         return (X, SReal(Z), amp), kw
     return mk
@@ -65,13 +65,14 @@ def _gni_recording_stub(X, env_step_size=1, max_iters=1000, energy_thresh=None, 
     return col_of(GI(x, n), n), SBool(GF(x, n))
 
 
-def _post_gnim(P, zero_amp):
+def _post_gnim(P, zero_amp, nproc=3):
     def post(c, a, kw, ret):
         imf, flag = ret
         calls = c.ghost['calls']
         amp = z3.RealVal(0) if zero_amp else AMP
         c.oblige('post:one-extraction-per-mask-phase', z3.BoolVal(len(calls) == P), 'post')
-        c.oblige('post:pool-has-the-requested-number-of-processes', z3.BoolVal([p.processes for p in c.ghost.get('pools', [])] == [3]), 'post')
+        if nproc > 1:       # (with a single process it does not matter whether a pool of one worker is used or none: the calls below are what counts)
+            c.oblige('post:pool-has-the-requested-number-of-processes', z3.BoolVal([p.processes for p in c.ghost.get('pools', [])] == [nproc]), 'post')
         c.oblige('post:nothing-random-read', z3.BoolVal(c.effects == []), 'post')
         c.oblige('post:column-of-input-length', z3.And(imf.shape_e[0] == N, imf.shape_e[1] == 1) if imf.ndim == 2 else z3.BoolVal(False), 'post')
         if len(calls) != P:
@@ -242,6 +243,10 @@ def units(tier):
                 return f(*a, **kw)
             U.append(Unit('get_next_imf_mask[nphases=%d%s]' % (P, ',amp=0' if zero else ''), SIFT, 'get_next_imf_mask', _mk_gnim(P, zero), _post_gnim(P, zero),
                           module=ES, inline=inl, wrap_call=call))
+            if not zero and P in (2, 4):
+                # the same contract with a single process (serial or one-worker path): identical calls, identical result
+                U.append(Unit('get_next_imf_mask[nphases=%d,nprocesses=1]' % P, SIFT, 'get_next_imf_mask', _mk_gnim(P, zero, 1), _post_gnim(P, zero, 1),
+                              module=ES, inline=inl, wrap_call=call))
     for mode in ('zc', 'float'):
         def call(f, c, a, kw):
             g = f.__globals__
@@ -402,8 +407,9 @@ def refute(tier, seed, emit):
         if emit.full:
             return
     nprocs = [2, 3] if tier == 'quick' else [2, 3, 4, 5, 6, 7, 8]
-    emit.scope('schedule independence: mask_sift with nprocesses in %s vs 1, 3 option sets, byte-identical results' % nprocs)
-    for gi, kw in enumerate([dict(max_imfs=3), dict(max_imfs=3, mask_freqs='if', nphases=3), dict(max_imfs=4, mask_amp_mode='ratio_sig', nphases=8)]):
+    emit.scope('schedule independence: mask_sift with nprocesses in %s vs 1, 4 option sets (one with non-default imf / envelope / extrema options), byte-identical results' % nprocs)
+    for gi, kw in enumerate([dict(max_imfs=3), dict(max_imfs=3, mask_freqs='if', nphases=3), dict(max_imfs=4, mask_amp_mode='ratio_sig', nphases=8),
+                             dict(max_imfs=3, extrema_opts={'pad_width': 4, 'parabolic_extrema': True}, envelope_opts={'interp_method': 'pchip'}, imf_opts={'sd_thresh': 0.05})]):
         emit.case(('sched', gi), contract='mask_sift')
         w = {'kind': 'schedule', 'sig': gi, 'kw': kw, 'nprocs': nprocs}
         ok, msg = replay(w)
